@@ -51,6 +51,8 @@ def run(ctx):
     elif prop == 'C17':
         scripts = common.dedup(common.finding_witnesses(findings) + common.corpus_inputs() + list(gen.exhaustive(2 if quick else 3)) +
                                common.random_scripts(seed, 500 if quick else 8000, mutate=1, unsupported=0.08))
+        scripts += ['coproc (a)>f', 'coproc { a; } > f', 'coproc x (a) >f 2>&1', 'a\ncoproc { b; } >f\nc', 'coproc while a; do b; done <f', 'b; coproc x { a; } 2>f | c',
+                    'select x in a b; do c; done >f', 'select x; do c; done <f &', 'time a >f', 'time -p { a; } >f', 'for ((;;)); do a; done >f', 'a | (( 1 )) >f', '[[ a ]] >f && b']
         for s in scripts:
             cases.append(('C17single', [], s, [('parse', {}, s), ('single', {}, s)]))
             cases.append(('C17single', [], s, [('parse', dict(proceedonerror=True, strictmode=False), s), ('single', dict(proceedonerror=True, strictmode=False), s)]))
@@ -70,7 +72,8 @@ def run(ctx):
         pool += [s for s in ['a <<E\nx\nE', 'a &', 'a;', 'a # c', 'a <<E <<F\n1\nE\n2\nF', 'f() { a; }', 'case x in a) b;; esac', 'a $(b)',
                              'if a; then b; fi', 'for i in 1 2; do a; done', 'a | b', '! a', 'a && b', '{ a; }', '(a)', 'x=1', 'a >b 2>&1']
                  if accepted(bl, s)]
-        seps = ['\n', '\n\n', ' \n', '\n# c\n', '\n \n\t', '\n#\n\n', ' # x\n']
+        # (a comment runs to its newline whatever it contains: a backslash at its end is no continuation)
+        seps = ['\n', '\n\n', ' \n', '\n# c\n', '\n \n\t', '\n#\n\n', ' # x\n', ' #\\\n', '\n# c \\\n', ' # `x $(\\\n', '\n#\\\\\n']
         for _ in range(1200 if quick else 20000):
             a, b = rng.choice(pool), rng.choice(pool)
             sep = rng.choice(seps)
